@@ -602,6 +602,12 @@ Section Conserve.
     - exact (viewed _ _ _ _ _ (del_key_view acct app false key c) H HI).
     - mstep H as c1 u1 G1. mguard G1. mstep H as c2 u2 G2. mguard G2.
       eapply perform_group_spec; eauto.
+    - mstep H as c1 cr Hc. unfold m_get_app_creator in Hc. inversion Hc. subst c1 cr. clear Hc.
+      mstep H as c2 creator Hs. apply some_or_fail_ok in Hs. destruct Hs as [-> _].
+      mstep H as c3 p Hp. unfold m_get_appparams in Hp. inversion Hp. subst c3 p. clear Hp.
+      mstep H as c4 params Hs2. apply some_or_fail_ok in Hs2. destruct Hs2 as [-> _].
+      mstep H as c5 u5 G. mguard G.
+      unfold m_put_appparams in H. inversion H. subst c'. eapply Inv_view; [|exact HI]. intro b. reflexivity.
     - discriminate.
   Qed.
 
